@@ -16,7 +16,7 @@ func (*inArray) Exit(node *Node) {
 			if array, ok := n.Right.(*ArrayNode); ok {
 				if len(array.Nodes) > 0 {
 					t := n.Left.Type()
-					if t == nil || t.Kind() != reflect.Int {
+					if t == nil || t.Kind() != reflect.Int || t.PkgPath() != "" {
 						// This optimization can be only performed if left side is int type,
 						// as runtime.in func uses reflect.Map.MapIndex and keys of map must,
 						// be same as checked value type.
@@ -41,6 +41,10 @@ func (*inArray) Exit(node *Node) {
 					}
 
 				string:
+					if t == nil || t.Kind() != reflect.String || t.PkgPath() != "" {
+						// A map lookup needs a key of exactly the map's key type.
+						return
+					}
 					for _, a := range array.Nodes {
 						if _, ok := a.(*StringNode); !ok {
 							return
